@@ -35,6 +35,16 @@ Space (see _c28_space.py):
               length-1 mutation programs in every context, read-only programs in RO_CONTEXTS; routes
               {attribute, full alias} in the quick tier, all routes in the thorough tier; the thorough tier
               also runs length-2 programs (attribute route, flush between the steps) in LEN2_CONTEXTS
+  loading     (origin suffix '@<load>', see LOADS) HOW the database value reaches memory - which call site builds the
+  paths       tracked value: Json/array attributes declared lazy=True (separate SELECT on first access, and fetched by
+              obj.load()), declared volatile=True (value dropped at every save and fetched again), object obtained
+              from select_by_sql() with only id + a scalar column (rest fetched on first access), rows fetched again
+              by a query after the setup. Each x LOAD_BASES (loaded / after commit / pending in-place change
+              elsewhere / assigned+flushed / created+flushed / from the lazy|volatile sibling / donor): length-1
+              mutation programs (routes as in the added contexts), read-only programs in LOAD_RO_BASES; thorough:
+              length-2 programs (attribute route, flush between the steps) in LOAD_LEN2_CONTEXTS. The plain twin takes
+              over the KEY ORDER Pony delivers before the first step / after the flush (key order is not part of a
+              Json value; the database text is key-sorted), values must be equal.
   read-only   indexing, iteration, len, in, get, keys/values/items, copy, get_untracked,
               comparison, json.dumps, repr, pickle, copy/deepcopy, concatenation, mutation of a
               copy - must leave status AND write bits unchanged and emit no INSERT/UPDATE/DELETE for a
@@ -47,7 +57,8 @@ context (only read after the setup) keeps (status, write bits), keeps its values
 is not written unless it had a pending change from the setup; (5) after commit a new db_session reads
 the plain result for the target and the expected values for every other attribute of both rows.
 Signatures name the context only when the same program passes from origin 'loaded' (and, for a
-modifier, passes without the modifier): '<kind>:ctx[<provenance-phase> | +<modifier>]:<shape>:<what>';
+modifier, passes without the modifier; for a loading path, passes with the value loaded by Entity[pk]):
+'<kind>:ctx[<provenance-phase> | +<modifier> | @<load>]:<shape>:<what>';
 four or more operation shapes failing alike in one context collapse to shape '*'.
 """
 import os, sys, json, copy, pickle, hashlib, sqlite3, itertools, shutil, atexit
@@ -350,11 +361,22 @@ def run_program(prog, diagnose=False):
                         else: problems.append((None, 'bystander-written', 'row %r was only read: %s' % (pk, sql[:80])))
                         break
             pending = pending_rows()
+            def adopt_key_order():
+                # the order of the keys is not part of a Json value: a value that came (back) from the database has
+                # the order the database text has; the plain twin takes over the order Pony delivers (equal values only)
+                tv = _plainval(getattr(obj, attrname))
+                if canon(tv) == canon(getattr(plain, attrname)):
+                    plain.data = copy.deepcopy(tv)
+                    if attrname != 'data': setattr(plain, attrname, plain.data)
+            if cx.load:
+                adopt_key_order()
+                obj_marks = _marks(obj)
             saved = canon(getattr(plain, attrname))       # value at the last save point
             ns_t, ns_p = _ns(obj), _ns(plain)
             for i, src in enumerate(steps):
                 if i and flush_between:
                     orm.flush()
+                    if cx.load: adopt_key_order()
                     saved = canon(getattr(plain, attrname))
                     if obj._status_ == 'modified':
                         problems.append((i, 'flush-left-modified', ''))
@@ -599,7 +621,6 @@ LEN2_CONTEXTS = ('db-pending+dirty-scalar', 'peer-pending', 'sibling-pending', '
 LOAD_BASES = ('db-pending', 'db-committed', 'db-pending+dirty-inplace', 'literal-flushed', 'ctor-flushed',
               'sibling-pending', 'donor-pending')
 LOAD_RO_BASES = ('db-pending', 'literal-flushed', 'donor-pending')
-LOAD_LEN2_BASES = ('db-pending', 'literal-flushed')
 
 def applicable(vk, origin):
     prov = parse_origin(origin)[0]
@@ -607,7 +628,7 @@ def applicable(vk, origin):
     return vk == 'json' or prov not in ('peernested', 'selfnested')
 LOAD_CONTEXTS = tuple('%s@%s' % (b, l) for l in LOADS[1:] for b in LOAD_BASES if applicable('json', '%s@%s' % (b, l)))
 LOAD_RO_CONTEXTS = tuple('%s@%s' % (b, l) for l in LOADS[1:] for b in LOAD_RO_BASES)
-LOAD_LEN2_CONTEXTS = tuple('%s@%s' % (b, l) for l in LOADS[1:] for b in LOAD_LEN2_BASES)
+LOAD_LEN2_CONTEXTS = ('db-pending@lazy', 'db-pending@volatile', 'literal-flushed@volatile', 'db-pending@partial')
 
 def plan(ctx):
     items = []
